@@ -79,6 +79,9 @@ def _concrete(fn, args, kwargs, record=None):
 def main():
     spec = json.loads(sys.argv[1])
     sys.path.insert(0, ROOT)
+    if REPO != "/repo":
+        # development aid only (mutation testing against a scratch worktree); registered checks use /repo
+        sys.path.insert(0, REPO)
     if spec.get("numpy"):
         sys.path.insert(0, os.path.join(ROOT, ".np"))
     sys.setrecursionlimit(10000)
